@@ -321,7 +321,19 @@ def run_case(case):
         for j in range(len(t) - 1):
             x0 = Xl[j]
             if min(x0) < 0:
+                # after a coarse leap some counts are negative.  The rates of such a state are outside the statement (the engine,
+                # for one, silences every reaction of a cell that holds a negative count of ANY species), with one exception that
+                # every reading shares: a channel that lacks reactant molecules (count below the coefficient, negative counts
+                # included) does not fire.  Judged on the tallied channel.
                 cnt("tauleap_steps_skipped_negative_prestate")
+                for cell, k in tally_ch.items():
+                    if any(x0[i_] < m_ for i_, m_ in chs[k][4]):
+                        cnt("tauleap_negative_prestate_tally_checks")
+                        yv = Xl[j + 1][(S - 1) * n + cell] - x0[(S - 1) * n + cell]
+                        if yv != 0:
+                            bad.append({"what": "tauleap: a channel lacking reactant molecules (negative count) fired", "cell": cell, "count": yv,
+                                        "reactant_counts": [x0[i_] for i_, m_ in chs[k][4]], "needs": [m_ for i_, m_ in chs[k][4]], **ctx})
+                            break
                 continue
             cnt("tauleap_steps")
             props = [ref.propensity(ch, x0) for ch in chs]
@@ -442,7 +454,7 @@ def main():
                    "on_iteration trajectories (increments of species totals / one entry / one tallied channel). Non-trivial: a reaction of "
                    "order >= 2 or >= 2 cells.",
               assumptions=["reference propensities vf/ref.py (falling factorial x k_env V^(1-order); Bernstein diffusion constants)",
-                           "tau-leap steps with a negative entry in the pre-state are skipped (outside the statement) and counted",
+                           "tau-leap steps with a negative entry in the pre-state are outside the statement (counted), except that a tallied channel lacking reactant molecules must not fire",
                            "each statistical monitor has false-alarm probability <= 1e-12; at most 16 monitors + per-case looks"])
     run.require("gillespie_steps", "tauleap_steps", "tauleap_tally_observations")
     thorough = tier() == "thorough"
